@@ -99,6 +99,8 @@ static void finish(vf::FacOracle& fo, vf::Case& c, const char* prefix)
     c.feat["checks"] = (double) fo.checks;
     c.feat["restarts_at_failure"] = (double) fo.fail_restarts;
     c.feat["arnoldi"] = fo.lanczos ? 0 : 1;
+    c.feat["min_pos_beta"] = (double) fo.min_pos_beta;
+    c.feat["single_precision"] = std::is_same<Real, float>::value ? 1 : 0;
     if (fo.failed)
         throw vf::Violation(fo.fail_kind, fo.fail_detail);
 }
@@ -687,6 +689,10 @@ static std::string match(const vf::Violation& v, const vf::Case& c)
 {
     if ((v.kind == "orthonormality" || v.kind == "residual_orthogonality") && c.f("arnoldi") > 0 && c.f("restarts_at_failure") >= 10)
         return "arnoldi_orthogonality_drift";
+    // KF-C07-FLOAT: single precision only: a residual whose norm is below ~1e-19 (its square underflows in the unscaled
+    // Eigen norm()) is normalised with a wrong norm, so the next basis vector does not have unit length
+    if ((v.kind == "orthonormality" || v.kind == "residual_orthogonality" || v.kind == "f_norm") && c.f("single_precision") > 0 && c.f("min_pos_beta") < 1e-18)
+        return "float_norm_underflow";
     return "";
 }
 
